@@ -26,7 +26,7 @@ FLOAT_KEYS = ["files"]          # fractional-time-unit workload class (hv/shard.
 PLAN = {"quick": {"shards": 16, "cases": 384, "timeout": 900}, "thorough": {"shards": 16, "cases": 3000, "timeout": 3400}}
 FLOORS = {"quick": {"distinct_nontrivial": 100, "overlays_checked": 150, "counter_files_checked": 60, "flow_pairs_checked": 2000,
                     "source_events_compared": 12000, "roundtrips": 150, "rank_maps": 50, "second_or_later_file_from_same_object": 80,
-                    "overlays_after_path_change": 12, "rank_update_prior_empty": 10},
+                    "overlays_after_path_change": 12, "rank_update_prior_empty": 10, "file_sets_with_a_rankless_file": 15},
           "thorough": {"distinct_nontrivial": 1600, "overlays_checked": 2400, "counter_files_checked": 900, "flow_pairs_checked": 30000,
                        "source_events_compared": 200000, "roundtrips": 2400, "rank_maps": 800, "second_or_later_file_from_same_object": 1200,
                        "overlays_after_path_change": 300, "rank_update_prior_empty": 150}}
@@ -58,6 +58,16 @@ def gen_case(rnd, tier: str, i: Any) -> Dict[str, Any]:
                           # what the file said about its rank before update_trace_rank: nothing, an empty object (single-process
                           # trace), other distributed fields only, or another rank
                           "prior_info": rnd.choice(["absent", "absent", "empty", "empty", "no_rank", "other_rank"])})
+        if rnd.random() < 0.35:
+            # one file that records no rank at all (single-process trace): the documented default is rank 0
+            k = rnd.randrange(len(files))
+            if all(f["rank"] != 0 for j, f in enumerate(files) if j != k):
+                f = files[k]
+                f["rank"], f["how"], f["rankless"] = 0, rnd.choice(["write_trace", "dump_default", "dump_indent"]), True
+                if rnd.random() < 0.5:
+                    f["trace"].pop("distributedInfo", None)
+                else:
+                    f["trace"]["distributedInfo"] = {"backend": "nccl", "world_size": 2048}
         return {"kind": "files", "files": files, "new_rank": rnd.choice([0, 5, 12, 999])}
     c = cpdrv.gen_case(rnd, tier, i, annotation_nest=rnd.random() < 0.4)
     # rename some files to .json.gz
@@ -247,6 +257,8 @@ def _files_case(case, ctx, res) -> None:  # noqa: ANN001
     d = ctx.scratch.new("c20f")
     try:
         paths, exp_map = [], {}
+        if any(f.get("rankless") for f in case["files"]):
+            res.counters["file_sets_with_a_rankless_file"] += 1
         for k, f in enumerate(case["files"]):
             tr = copy.deepcopy(f["trace"])
             p = os.path.join(d, f"t{k}_{f['how']}.json" + (".gz" if f["gz"] else ""))
